@@ -1170,6 +1170,7 @@ PROP_THEOREMS = {
             "C07_stored_streams_any_schedule_partial"],
     "C08": ["C08_window_and_truthful_status", "C08_bad_geometry_untouched"],
     "C13": ["C13_full_flush_is_stream_error", "C13_errors_are_sticky", "C13_nonfinish_after_finish",
-            "C13_counts_within_offered_buffers", "C13_wf_of_constructors", "C13_inflate_on_stored_streams_partial"],
+            "C13_counts_within_offered_buffers", "C13_wf_of_constructors", "C13_inflate_on_stored_streams_partial",
+            "C13_inflate_finish_on_fresh_object_partial"],
     "C19": ["C19_boundary_record_roundtrip", "C19_no_record_elsewhere"],
 }
